@@ -8,6 +8,14 @@ COMMON_TRUST = [
 ]
 
 PROPS = {
+    'C17': dict(
+        units=['webclient'], level='proof',
+        witness=[dict(append_to='tonic-web/src/call.rs', module='replay/web_client_chunking.rs', crate='tonic-web', filter='verif_witness_web_client')],
+        not_covered=[
+            'decode_trailers_frame (the HTTP/1 header-block parser: iterator adapters, HeaderName/HeaderValue::try_from, HeaderMap::append) is out of reach of both verifiers: that every name keeps its full value (colons, repeated names) is NOT decided here; a native witness test (replay/web_client_chunking.rs) exercises it when a violation is reported',
+            'poll_decode (binary mode: forwards inner frames with copied bytes) is linked as an assumed contract A-tonic-web-02',
+            'GrpcWebClientService::call / ResponseFuture (content-type coercion of the client layer)',
+        ]),
     'C14': dict(
         units=['reconnect'], level='proof',
         not_covered=[
@@ -16,6 +24,7 @@ PROPS = {
             'liveness ("every call completes") is not claimed: the loop in poll_ready has no decreases clause - a connector that always succeeds and dies at once is a legitimate infinite history; what is proved is the state machine for every finite history',
         ]),
     'C09': dict(
+        witness=[dict(append_to='tonic/src/transport/service/grpc_timeout.rs', module='replay/timeout_witness.rs', crate='tonic', filter='verif_witness_timeout', features=['--features', 'gzip,deflate,zstd']), dict(append_to='tonic/src/request.rs', module='replay/request_witness.rs', crate='tonic', filter='verif_witness_request', features=['--features', 'gzip,deflate,zstd'])],
         units=['timeout'], level='proof',
         not_covered=[
             'elapsed (virtual) time: that tokio::time::sleep(d) fires after exactly d and the grid of (caller timeout, configured timeout, handler latency) triples - the timer is an assumed primitive (A-tokio-01)',
@@ -32,6 +41,7 @@ PROPS = {
             'the repr(transparent) pointer casts unchecked_from_header_*_ref are trusted (A-tonic-unsafe-01)',
         ]),
     'C05': dict(
+        witness=[dict(append_to='tonic/src/codec/compression.rs', module='replay/compression_witness.rs', crate='tonic', filter='verif_witness_compression', features=['--features', 'gzip,deflate,zstd']), dict(append_to='tonic/src/codec/decode.rs', module='replay/decode_witness.rs', crate='tonic', filter='verif_witness_decode', features=['--features', 'gzip,deflate,zstd'])],
         units=['compression', 'decode', 'encode'], level='proof',
         not_covered=[
             'EnabledCompressionEncodings::{enable,pop,is_enabled,is_empty,into_accept_encoding_header_value} use iterator adapters Verus rejects: their contracts (A-tonic-cfg-01) are the complete Kani harnesses of the Kani lane (all slot states), linked here as callee contracts',
@@ -47,6 +57,7 @@ PROPS = {
             'InterceptorLayer / generated client-server wiring that installs the InterceptedService',
         ]),
     'C04': dict(
+        witness=[dict(append_to='tonic/src/status.rs', module='replay/status_witness.rs', crate='tonic', filter='verif_witness_status', features=['--features', 'gzip,deflate,zstd'])],
         units=['status'], level='proof',
         not_covered=[
             'percent-encoding and base64 crates implement their RFCs and are mutually inverse (axioms A-pct-01, A-b64-01); tonic/src/util.rs engine configuration is represented by the Engine shim',
@@ -56,6 +67,7 @@ PROPS = {
             'from_error / from_hyper_error / find_status_in_source_chain (dyn Error source chains) are not under contract',
         ]),
     'C01': dict(
+        witness=[dict(append_to='tonic/src/codec/decode.rs', module='replay/decode_witness.rs', crate='tonic', filter='verif_witness_decode', features=['--features', 'gzip,deflate,zstd']), dict(append_to='tonic/src/codec/encode.rs', module='replay/encode_witness.rs', crate='tonic', filter='verif_witness_encode', features=['--features', 'gzip,deflate,zstd'])],
         units=['wire', 'encode', 'decode', 'compression'], level='proof',
         not_covered=[
             'gzip/deflate/zstd coders are inverses of their decoders (flate2/zstd FFI): axioms A-compress-01/04; that compress()/decompress() call the coder NAMED by the encoding and append exactly its output is proved on the real bodies (unit compression)',
@@ -64,16 +76,19 @@ PROPS = {
             'the composition "encoder trace then decoder trace" is stated per call (enc_step / M1,P1,N1 step clauses) plus the spec-level lemmas lemma_parse_wire and lemma_parse_append; the induction over whole poll traces is not yet mechanised',
         ]),
     'C03': dict(
+        witness=[dict(append_to='tonic/src/codec/encode.rs', module='replay/encode_witness.rs', crate='tonic', filter='verif_witness_encode', features=['--features', 'gzip,deflate,zstd'])],
         units=['wire', 'encode', 'status', 'reqresp', 'compression'], level='proof',
         not_covered=[
             'client prepare_request / server map_response glue is not yet under contract in this build (Status::into_http, Response::into_http, Request::into_http are)',
             'that compress() uses the coder named in grpc-encoding (FFI)', 'HTTP/2 serialisation of heads and trailers (hyper/h2)',
         ]),
     'C06': dict(
+        witness=[dict(append_to='tonic/src/codec/decode.rs', module='replay/decode_witness.rs', crate='tonic', filter='verif_witness_decode', features=['--features', 'gzip,deflate,zstd']), dict(append_to='tonic/src/codec/encode.rs', module='replay/encode_witness.rs', crate='tonic', filter='verif_witness_encode', features=['--features', 'gzip,deflate,zstd'])],
         units=['encode', 'decode', 'compression'], level='proof',
         not_covered=['server/client plumbing of max_*_message_size from the configuration into Streaming / EncodeBody (straight-line glue, not yet under contract)'],
         ),
     'C07': dict(
+        witness=[dict(append_to='tonic/src/codec/decode.rs', module='replay/decode_witness.rs', crate='tonic', filter='verif_witness_decode', features=['--features', 'gzip,deflate,zstd'])],
         units=['decode', 'compression'], level='proof',
         not_covered=[
             '"every poll completes" is decided only as safety: each loop iteration of Streaming::poll_next either returns or polls the body exactly once; termination under a body that yields frames forever is liveness and not claimed',
